@@ -152,7 +152,14 @@ def run(job, mon):
       if nefc0 or d2.nefc or act0 > 0 or act1 > 0:
         mon.count('steps_rejected_constraint_active')
         continue
-      if not (phys.finite(q2, qd2) and np.abs(qdref).max() < 1e6):
+      # a stiff generated model can blow up within one step; MuJoCo then
+      # raises a BADQACC/BADQPOS/BADQVEL warning and resets its data to qpos0
+      # (the "reference" would then be a different trajectory altogether)
+      mj_unstable = any(d.warning[k].number > 0 for k in (
+          mujoco.mjtWarning.mjWARN_BADQPOS, mujoco.mjtWarning.mjWARN_BADQVEL,
+          mujoco.mjtWarning.mjWARN_BADQACC))
+      if mj_unstable or not phys.finite(q2, qd2) or (
+          np.abs(qd2).max() > 1e4 or np.abs(qdref).max() > 1e4):
         mon.count('steps_rejected_diverged')
         continue
       # root quaternions up to sign
